@@ -9,6 +9,12 @@
       (ancestor / descendant) subjects and objects, batches, `anything` with its parent/sub-module de-duplication,
       names that do not exist (`model_verdict_ren_all`, `model_report_ren`, `model_atoms_ren`): the graph of the renamed
       architecture is the image of the original graph and every search, query, bucket and report line is mapped.
+  (4) The same for LAYER rules (`layer_model_iso`, `layer_verdict_ren`): layer mapping, consistency check, layer lookup, the
+      lenient detector and the tagged report commute with the renaming — same verdict class, same error kind
+      (`LayerMismatch` included), same report lines with every module name renamed and the SAME layer tags.
+  (5) The same for DIAGRAM rules (`diagram_model_iso`, `diagram_verdict_ren`, `diagram_spec_ren`): the generated rules of the
+      renamed diagram are the renamed rules up to the order `sorted(...)` imposes; verdict class and the multiset of
+      report items are invariant.
 -/
 import Bridge.Abs
 import Bridge.Rename
@@ -17,6 +23,9 @@ import PtaProofs.Lemmas.RenameModel
 import PtaProofs.Lemmas.RenameBuild
 import PtaProofs.Lemmas.RenameNames
 import PtaProofs.Lemmas.RenameLabel
+import Bridge.RenameLayer
+import PtaProofs.Lemmas.RenameLayer
+import PtaProofs.Lemmas.RenameDiagram
 namespace Pta.C14
 open Pta PtaSpec
 
@@ -211,5 +220,213 @@ example : plotLabels (([nm "p", nm "p.x", nm "p.y", nm "p.x.u"].map (renName adv
       ((renAliases advRen [(nm "p.x", "A".toList)]).map fun a => (render a.1, a.2)) =
     .ok [("zp".toList, "zp".toList), ("zp.a".toList, "A".toList), ("zp.ab".toList, "zp.ab".toList), ("zp.a.zu".toList, "A.zu".toList)] := by
   rfl
+
+
+/-! ### (4) LAYER rules: the code model commutes with the renaming -/
+
+/-- the generic fact: `LayerRule.assert_applies` commutes with EVERY injective map `φ` of node names that preserves the
+    boundary-aware strict-sub-module test `isStrictSub x y` for `x` an identifier listed by a layer or used by the rule
+    and `y` a name the graph mentions (node or edge end) or an identifier used by the rule (`subOK`) — on every graph,
+    every layered architecture (regex layers contribute nothing to the mapping of a regex-free rule, on both sides) and
+    every regex-free rule object. Same verdict class, same error kind (`LayerMismatch` included), same report lines in
+    the same order with every module name mapped and the SAME layer tags. -/
+theorem layer_model_iso (φ : Str → Str) (hφ : ∀ x y, φ x = φ y → x = y) (mt : Str → Str → Bool) (g : PGraph Str)
+    (larch : LArch) (rule : RuleState) (hreg : Pta.RM.cfgNoRegex rule.cfg)
+    (hsub : subOK φ (larch.listedIds ++ rule.cfg.ids) (g.names ++ rule.cfg.ids)) :
+    assertAppliesLayer mt ⟨some (larch.mapIds φ), some (rule.mapId φ)⟩ (mapGraph φ g) =
+      (assertAppliesLayer mt ⟨some larch, some rule⟩ g).mapId φ :=
+  Pta.RL.assertAppliesLayer_map φ hφ mt g larch rule hreg hsub
+
+/-- the mapped verdict has the class and the layer tags of the original one -/
+theorem layer_mapId_cls_tags (φ : Str → Str) (v : LVerdict) : (v.mapId φ).cls = v.cls ∧ (v.mapId φ).tags = v.tags :=
+  Pta.RL.mapId_cls_tags_lemma φ v
+
+/-- the layer mapping itself: consistency check (`LayerMismatch` for a module listed by two layers) and layer lookup
+    (`get_layer_for_module_name`, with its de-duplication and its sub-module test) commute with `φ` -/
+theorem layerMap_iso (φ : Str → Str) (hφ : ∀ x y, φ x = φ y → x = y) (m : LayerMap) :
+    (m.mapIds φ).consistent = m.consistent ∧
+    ∀ n, subOK φ m.listed [n] → (m.mapIds φ).layerOf (φ n) = m.layerOf n :=
+  ⟨Pta.RL.consistent_map φ hφ m, fun n h => Pta.RL.layerOf_map φ hφ m n (fun c hc => h c hc n (by simp))⟩
+
+/-- Target 2: for EVERY layer rule (any verb, direction, `except`, `anything`; layers may list related modules, the
+    same module twice or in two layers, modules that do not exist; undefined layer names) on a well-formed architecture
+    with layers listing well-formed names: the outcome on the renamed architecture with the renamed layers is the
+    original outcome with every module name renamed — same class, same error kind, same layer tags -/
+theorem layer_verdict_ren (mt : Str → Str → Bool) (ρ : Comp → Comp) (hρ : GoodRen ρ) (a : Arch) (hwf : a.wf = true)
+    (ls : Layers) (hls : layersWF ls = true) (r : LRuleSpec) :
+    assertAppliesLayer mt (compileLayerRule (compileLArch (renLayers ρ ls)) r) (archGraph (renArch ρ a)) =
+      (assertAppliesLayer mt (compileLayerRule (compileLArch ls) r) (archGraph a)).mapId (renStr ρ) :=
+  Pta.RL.layer_verdict_ren_lemma mt ρ hρ a hwf ls hls r
+
+/-- … in particular the verdict class and the layer tags of the report are invariant -/
+theorem layer_verdict_ren_cls (mt : Str → Str → Bool) (ρ : Comp → Comp) (hρ : GoodRen ρ) (a : Arch) (hwf : a.wf = true)
+    (ls : Layers) (hls : layersWF ls = true) (r : LRuleSpec) :
+    (assertAppliesLayer mt (compileLayerRule (compileLArch (renLayers ρ ls)) r) (archGraph (renArch ρ a))).cls =
+      (assertAppliesLayer mt (compileLayerRule (compileLArch ls) r) (archGraph a)).cls ∧
+    (assertAppliesLayer mt (compileLayerRule (compileLArch (renLayers ρ ls)) r) (archGraph (renArch ρ a))).tags =
+      (assertAppliesLayer mt (compileLayerRule (compileLArch ls) r) (archGraph a)).tags := by
+  rw [layer_verdict_ren mt ρ hρ a hwf ls hls r]
+  exact layer_mapId_cls_tags _ _
+
+/-- … with the plain component-wise renaming `renDotted ρ` of the report: every module name in a layer report is a
+    well-formed dotted name (`layer_report_names_wf`) -/
+theorem layer_report_ren (mt : Str → Str → Bool) (ρ : Comp → Comp) (hρ : GoodRen ρ) (a : Arch) (hwf : a.wf = true)
+    (ls : Layers) (hls : layersWF ls = true) (r : LRuleSpec) :
+    assertAppliesLayer mt (compileLayerRule (compileLArch (renLayers ρ ls)) r) (archGraph (renArch ρ a)) =
+      (assertAppliesLayer mt (compileLayerRule (compileLArch ls) r) (archGraph a)).mapId (renDotted ρ) :=
+  Pta.RL.layer_verdict_ren_plain_lemma mt ρ hρ a hwf ls hls r
+
+theorem layer_report_names_wf (mt : Str → Str → Bool) (a : Arch) (hwf : a.wf = true) (ls : Layers)
+    (hls : layersWF ls = true) (r : LRuleSpec) :
+    ∀ s ∈ (assertAppliesLayer mt (compileLayerRule (compileLArch ls) r) (archGraph a)).names, nameWF (splitDots s) = true :=
+  Pta.RL.layer_report_names_wf_lemma mt a hwf ls hls r
+
+/-- `layer_model_iso` for an arbitrary state of the `LayerRule` builder (no rule yet, no architecture yet) -/
+theorem layer_model_iso_state (φ : Str → Str) (hφ : ∀ x y, φ x = φ y → x = y) (mt : Str → Str → Bool) (g : PGraph Str)
+    (s : LayerRuleState)
+    (h : ∀ a r, s.arch = some a → s.rule = some r →
+      Pta.RM.cfgNoRegex r.cfg ∧ subOK φ (a.listedIds ++ r.cfg.ids) (g.names ++ r.cfg.ids)) :
+    assertAppliesLayer mt (s.mapId φ) (mapGraph φ g) = (assertAppliesLayer mt s g).mapId φ :=
+  Pta.RL.assertAppliesLayer_map_state φ hφ mt g s h
+
+/-! ### (5) DIAGRAM rules -/
+
+/-- (a) `MultipleRuleApplier.assert_applies` on the mapped graph with the mapped generated rules: the mapped outcome,
+    exactly (rule by rule from `model_iso`) -/
+theorem diagram_rules_iso (φ : Str → Str) (hφ : ∀ x y, φ x = φ y → x = y) (mt : Str → Str → Bool) (g : PGraph Str)
+    (so : Bool) (p : Parsed') :
+    applyAll mt (mapGraph φ g) ((diagramRules so p).map (RuleState.mapId φ)) = (applyAll mt g (diagramRules so p)).mapId φ :=
+  Pta.RD.applyAll_map φ hφ mt g _ (Pta.RD.diagramRules_ok φ so p)
+
+/-- (b) the rules generated for the mapped diagram: the mapped "should" rules in the same order, followed by a
+    PERMUTATION of the mapped "should not" rules, each with its object list permuted (`sorted(...)` sorts the mapped
+    names, so neither order is preserved in general — see the example below) -/
+theorem diagram_rules_shape (φ : Str → Str) (hφ : ∀ x y, φ x = φ y → x = y) (so : Bool) (p : Parsed') :
+    ∃ A B B' B'', diagramRules so p = A ++ B ∧ diagramRules so (p.mapNames φ) = A.map (RuleState.mapId φ) ++ B' ∧
+      B'.Perm B'' ∧ Forall2 SNPerm B'' (B.map (RuleState.mapId φ)) := by
+  obtain ⟨B', B'', h1, h2, h3⟩ := Pta.RD.diagramRules_mapNames φ hφ so p
+  exact ⟨_, _, B', B'', Pta.Dg.diagramRules_eq so p, h1, h2, h3⟩
+
+/-- Target 3, generic: a diagram rule commutes with EVERY injective map of node names — no hypothesis on the graph or on
+    the parser result: same verdict class (same error kind), and the report items are the mapped items as a multiset
+    (neither the order of the "should not" rules nor the order of their objects matters) -/
+theorem diagram_model_iso (φ : Str → Str) (hφ : ∀ x y, φ x = φ y → x = y) (mt : Str → Str → Bool) (g : PGraph Str)
+    (so : Bool) (p : Parsed') :
+    (applyAll mt (mapGraph φ g) (diagramRules so (p.mapNames φ))).cls = (applyAll mt g (diagramRules so p)).cls ∧
+    (applyAll mt (mapGraph φ g) (diagramRules so (p.mapNames φ))).items.Perm
+      ((applyAll mt g (diagramRules so p)).items.map (Item.mapId φ)) :=
+  Pta.RD.diagram_map φ hφ mt g so p
+
+/-- Target 3 for the component-wise renaming, any parser result -/
+theorem diagram_verdict_ren (mt : Str → Str → Bool) (ρ : Comp → Comp) (hρ : GoodRen ρ) (a : Arch) (hwf : a.wf = true)
+    (so : Bool) (p : Parsed') :
+    (applyAll mt (archGraph (renArch ρ a)) (diagramRules so (p.mapNames (renStr ρ)))).cls =
+      (applyAll mt (archGraph a) (diagramRules so p)).cls ∧
+    (applyAll mt (archGraph (renArch ρ a)) (diagramRules so (p.mapNames (renStr ρ)))).items.Perm
+      ((applyAll mt (archGraph a) (diagramRules so p)).items.map (Item.mapId (renStr ρ))) :=
+  Pta.RD.diagram_verdict_ren_lemma mt ρ hρ a hwf so p
+
+/-- … and for a specification-level diagram with an optional base module (`with_base_module`): what
+    `DiagramRule.assert_applies` evaluates for the renamed diagram and the renamed base module on the renamed
+    architecture (`parsedOf (renDiagram ρ d) = (parsedOf d).mapNames (renStr ρ)`, `parsedOf_ren`) -/
+theorem diagram_spec_ren (mt : Str → Str → Bool) (ρ : Comp → Comp) (hρ : GoodRen ρ) (a : Arch) (hwf : a.wf = true)
+    (so : Bool) (d : Diagram) (hd : specDiagramWF d = true) (base : Option Name) (hb : ∀ q, base = some q → nameWF q = true) :
+    (applyAll mt (archGraph (renArch ρ a))
+        (diagramRules so (prefixParsed (parsedOf (renDiagram ρ d)) ((base.map (renName ρ)).map render)))).cls =
+      (applyAll mt (archGraph a) (diagramRules so (prefixParsed (parsedOf d) (base.map render)))).cls ∧
+    (applyAll mt (archGraph (renArch ρ a))
+        (diagramRules so (prefixParsed (parsedOf (renDiagram ρ d)) ((base.map (renName ρ)).map render)))).items.Perm
+      ((applyAll mt (archGraph a) (diagramRules so (prefixParsed (parsedOf d) (base.map render)))).items.map
+        (Item.mapId (renStr ρ))) :=
+  Pta.RD.diagram_spec_ren_lemma mt ρ hρ a hwf so d hd base hb
+
+theorem parsedOf_ren (ρ : Comp → Comp) (hρ : GoodRen ρ) (d : Diagram) (hd : specDiagramWF d = true) :
+    parsedOf (renDiagram ρ d) = (parsedOf d).mapNames (renStr ρ) :=
+  Pta.RD.parsedOf_ren hρ d hd
+
+
+/-! ### non-vacuity of (4) and (5): the adversarial renaming, layer tags, `LayerMismatch`, reordered diagram rules -/
+
+/-- three layers listing `p.x`, its sibling `p.y` (renamed to `zp.a` and `zp.ab`: a raw string prefix) and `q` -/
+def exLs : Layers := [("L1".toList, [nm "p.x"]), ("L2".toList, [nm "p.y"]), ("L3".toList, [nm "q"])]
+/-- "L1 should not access L2" — violated by `p.x.u → p.y` -/
+def exLR : LRuleSpec := { verb := .shouldNot, importDir := true, exc := false, subject := "L1".toList, objects := ["L2".toList] }
+/-- "L1 should only be accessed by L2" — `q → p.x` is forbidden and no module of L2 imports one of L1 -/
+def exLR' : LRuleSpec := { verb := .shouldOnly, importDir := false, exc := false, subject := "L1".toList, objects := ["L2".toList] }
+/-- related layer modules: `p.x.u` lies below `p` (L1) and below `p.x` (L2) -/
+def exLs2 : Layers := [("L1".toList, [nm "p"]), ("L2".toList, [nm "p.x"]), ("L3".toList, [nm "q"])]
+def exLR2 : LRuleSpec := { verb := .shouldNot, importDir := true, exc := false, subject := "L2".toList, objects := ["L1".toList] }
+
+example : exA.wf = true ∧ layersWF exLs = true ∧ layersWF exLs2 = true := by decide
+
+set_option maxRecDepth 8000 in
+/-- a report line with layer tags: the sibling `zp.ab` of `zp.a` is attributed to L2, not to L1, and the line is kept -/
+example :
+    assertAppliesLayer (fun _ _ => false) (compileLayerRule (compileLArch exLs) exLR) (archGraph exA) =
+      .fail [.imp "p.x.u".toList "p.y".toList false (some "L1".toList) (some "L2".toList)] ∧
+    assertAppliesLayer (fun _ _ => false) (compileLayerRule (compileLArch (renLayers advRen exLs)) exLR)
+        (archGraph (renArch advRen exA)) =
+      .fail [.imp "zp.a.zu".toList "zp.ab".toList false (some "L1".toList) (some "L2".toList)] := by decide
+
+set_option maxRecDepth 8000 in
+/-- an import line and a layer-level "is not imported by" line -/
+example :
+    assertAppliesLayer (fun _ _ => false) (compileLayerRule (compileLArch exLs) exLR') (archGraph exA) =
+      .fail [.imp "q".toList "p.x".toList true (some "L3".toList) (some "L1".toList),
+             .miss false (some "L1".toList) [some "L2".toList] true] ∧
+    assertAppliesLayer (fun _ _ => false) (compileLayerRule (compileLArch (renLayers advRen exLs)) exLR')
+        (archGraph (renArch advRen exA)) =
+      .fail [.imp "zq".toList "zp.a".toList true (some "L3".toList) (some "L1".toList),
+             .miss false (some "L1".toList) [some "L2".toList] true] := by decide
+
+set_option maxRecDepth 8000 in
+/-- `LayerMismatch` (a module below listed modules of two layers) is preserved -/
+example :
+    assertAppliesLayer (fun _ _ => false) (compileLayerRule (compileLArch exLs2) exLR2) (archGraph exA) = .err .layerMismatch ∧
+    assertAppliesLayer (fun _ _ => false) (compileLayerRule (compileLArch (renLayers advRen exLs2)) exLR2)
+        (archGraph (renArch advRen exA)) = .err .layerMismatch := by decide
+
+set_option maxRecDepth 8000 in
+/-- the hypotheses of the generic `layer_model_iso` are met by the adversarial renaming on this instance -/
+example :
+    let rule := mkRule false false true true false [.name "p.x".toList] [.name "p.y".toList]
+    Pta.RM.cfgNoRegex rule.cfg ∧
+    subOK (renStr advRen) ((compileLArch exLs).listedIds ++ rule.cfg.ids) ((archGraph exA).names ++ rule.cfg.ids) :=
+  ⟨Pta.RL.cfgNoRegex_of_check _ (by decide), Pta.RL.subOK_of_check _ _ _ (by decide)⟩
+
+/-- an architecture and a diagram over top-level modules whose sorted order changes under the adversarial renaming
+    (`q < x < y` but `a < ab < zq`) -/
+def exB : Arch := { nodes := ["q", "x", "x.u", "y"].map nm, imports := [(nm "x.u", nm "y"), (nm "y", nm "q"), (nm "q", nm "x")] }
+def exD : Diagram := { components := [nm "q", nm "x", nm "y"], arrows := [(nm "x", nm "y")] }
+
+example : exB.wf = true ∧ specDiagramWF exD = true := by decide
+
+set_option maxRecDepth 8000 in
+/-- the generated "should not" rules are evaluated in a different order after the renaming, so the report lines come in
+    a different order: `diagram_model_iso` cannot be an equality of lists -/
+example :
+    (applyAll (fun _ _ => false) (archGraph exB) (diagramRules false (parsedOf exD))).items =
+      [.imp "q".toList "x".toList false, .imp "y".toList "q".toList false] ∧
+    (applyAll (fun _ _ => false) (archGraph (renArch advRen exB)) (diagramRules false (parsedOf (renDiagram advRen exD)))).items =
+      [.imp "ab".toList "zq".toList false, .imp "zq".toList "a".toList false] := by decide
+
+
+/-- `diagram_model_iso` only asks for an injective map; the guarded string renaming is one -/
+example : ∀ x y, renStr advRen x = renStr advRen y → x = y := (renStr_agrees advRen advRen_good).2.2
+
+/-- a diagram drawn below the base module `p` (`with_base_module("p")`) without arrows: `p.x` must not import `p.y` -/
+def exD' : Diagram := { components := [nm "x", nm "y"], arrows := [] }
+
+example : specDiagramWF exD' = true ∧ ∀ q, some (nm "p") = some q → nameWF q = true :=
+  ⟨by decide, fun q h => by cases h; decide⟩
+
+set_option maxRecDepth 8000 in
+example :
+    (applyAll (fun _ _ => false) (archGraph exA)
+      (diagramRules false (prefixParsed (parsedOf exD') ((some (nm "p")).map render)))).items =
+      [.imp "p.x.u".toList "p.y".toList false] ∧
+    (applyAll (fun _ _ => false) (archGraph (renArch advRen exA))
+      (diagramRules false (prefixParsed (parsedOf (renDiagram advRen exD')) (((some (nm "p")).map (renName advRen)).map render)))).items =
+      [.imp "zp.a.zu".toList "zp.ab".toList false] := by decide
 
 end Pta.C14
